@@ -419,11 +419,16 @@ pub fn tree_walker(
                 let here = lexical(&absolute(&target).unwrap_or(target.clone()));
                 let mut clash = through_links.contains(&here);
                 if meta.is_file() {
-                    if let Ok(text) = read_link(&target) {
-                        let via = here.parent().unwrap_or(Path::new("")).join(text);
-                        let via = lexical(&via);
+                    // (The link may lead to another link, and so on.)
+                    let mut at = here.clone();
+                    let mut link = read_link(&target);
+                    for _ in 0..40 {
+                        let Ok(text) = link else { break };
+                        let via = lexical(&at.parent().unwrap_or(Path::new("")).join(text));
                         clash = clash || (via != here && spelled.contains(&via));
-                        through_links.insert(via);
+                        through_links.insert(via.clone());
+                        link = read_link(&via);
+                        at = via;
                     }
                 }
                 if clash {
